@@ -12,7 +12,8 @@ variable {α : Type} [Scalar α]
 theorem isTemp_tmpName (k : Nat) : isTemp (tmpName k) = true := by simp [isTemp, tmpName]
 
 theorem parseLit_tmpName (k : Nat) : parseLit (tmpName k) = none := by
-  simp [parseLit, tmpName]
+  have h1 : ('#' : Char).toLower = '#' := by decide
+  simp [parseLit, tmpName, wordLit, h1]
 
 theorem litOf_tmpName (k : Nat) : litOf (α := α) (tmpName k) = none := by simp [litOf, parseLit_tmpName]
 
@@ -307,22 +308,16 @@ theorem opVoidFn_fresh (tr : Tr α) (f s : Str) (k : Nat) (x c : List α)
 theorem binOps_ne {o : Char} (ho : binOps.contains o = true) : o ≠ '=' ∧ o ≠ '@' := by
   constructor <;> (intro h; subst h; revert ho; decide)
 
+theorem reserved_not_lit : ∀ r ∈ reservedNames, parseLit r = none := by decide +kernel
+
 theorem not_reserved_of_lit {s : Str} (h : (parseLit s).isSome) : isReserved s = false := by
-  cases s with
-  | nil => simp [parseLit] at h
-  | cons c cs =>
-    simp only [parseLit] at h
-    split at h
-    · simp at h
-    · rename_i hc
-      simp only [Bool.not_eq_eq_eq_not] at hc
-      cases hr : isReserved (c :: cs) with
-      | false => rfl
-      | true =>
-        exfalso
-        simp only [isReserved, reservedNames, List.contains_cons, List.contains_nil, Bool.or_false, Bool.or_eq_true,
-          beq_iff_eq, List.cons.injEq] at hr
-        rcases hr with hr | hr | hr | hr | hr | hr <;> (have := hr.1; subst this; revert hc; decide)
+  cases hr : isReserved s with
+  | false => rfl
+  | true =>
+    exfalso
+    have hm : s ∈ reservedNames := by simpa [isReserved] using hr
+    rw [reserved_not_lit s hm] at h
+    cases h
 
 theorem hasAF_lit_false {tr : Tr α} (hl : NoLitNames tr) {s : Str} (h : (parseLit s).isSome) : hasAF tr s = false := by
   simp [hasAF, hl s h, not_reserved_of_lit h]
